@@ -1094,7 +1094,7 @@ def lateinval_engine(pid, spec, tier, seed, workdir, res):
 OVERLAP_SCENARIOS = {
     'C02': ['foreground-validated'],
     'C08': ['replace', 'second-variant-stored'],
-    'C19': ['second-variant-stored', 'second-variant-invalidated', 'invalidated'],
+    'C19': ['second-variant-stored', 'second-variant-invalidated', 'invalidated', 'foreground-invalidated'],
     'C20': ['second-variant-stale', 'invalidated'],
 }
 OVERLAP_CODES = {
